@@ -148,31 +148,36 @@ def check(run):
                 s.close()
         pk.release()
     # a writer that starts while a read is running: it may get RESERVED but cannot spill or commit until the read has returned
-    run.count()
-    core.session_send(long_lived, "hold normal select t a,b")
-    lines = core.session_read_until(long_lived, lambda l: l == "paused" or l.startswith("held"))
-    if lines[-1] == "paused":
-        w = sqlite3.connect(path, timeout=0, isolation_level=None)
-        w.execute("PRAGMA cache_size=5")
-        res = "spilled"
-        try:
-            w.execute("BEGIN IMMEDIATE")
-            w.execute("UPDATE t SET b = 'UNCOMMITTED-' || b")
-        except sqlite3.OperationalError as e:
-            res = "locked"
-        spilled_probe = outside_probe(path)
-        core.session_send(long_lived, "resume")
-        lines = core.session_read_until(long_lived, lambda l: l.startswith("held"))
-        try:
-            w.execute("ROLLBACK")
-        except sqlite3.OperationalError:
-            pass
-        w.close()
-        m = model.cmd("lock 1 1 L1:0 L2:0 L3:0 P:0 S1:0 S2:0 S3:0 R:0 Pe:0 X:0 W:0")
-        # SQLite may keep the dirty pages in memory when it cannot spill (it then holds PENDING); what must not happen is EXCLUSIVE
-        if "shared=W" in spilled_probe or "writes=0" not in (m[-1] if m else ""):
-            run.violation("a writer that spills its cache while a read is inside its callback got EXCLUSIVE (%s; a third process saw [%s]); the model says %s" % (res, spilled_probe, m[-1:] ),
-                          {"kind": "reader-vs-writer", "db": path, "scenario": "hold select; writer BEGIN IMMEDIATE + UPDATE with cache_size=5", "writer": res, "probe": spilled_probe, "model": m})
+    # (also after a nested call on the same handle from inside the callback, through every entry point: it must not drop the outer read's lock)
+    for nested in (None, "nest", "nest select", "nest selectrowid", "nest iselect", "nest pkselect"):
+        run.count()
+        core.session_send(long_lived, "hold normal select t a,b")
+        lines = core.session_read_until(long_lived, lambda l: l == "paused" or l.startswith("held"))
+        if lines[-1] == "paused":
+            if nested:
+                core.session_send(long_lived, nested)
+                core.session_read_until(long_lived, lambda l: l.startswith("f2 "))
+            w = sqlite3.connect(path, timeout=0, isolation_level=None)
+            w.execute("PRAGMA cache_size=5")
+            res = "spilled"
+            try:
+                w.execute("BEGIN IMMEDIATE")
+                w.execute("UPDATE t SET b = 'UNCOMMITTED-' || b")
+            except sqlite3.OperationalError as e:
+                res = "locked"
+            spilled_probe = outside_probe(path)
+            core.session_send(long_lived, "resume")
+            lines = core.session_read_until(long_lived, lambda l: l.startswith("held"))
+            try:
+                w.execute("ROLLBACK")
+            except sqlite3.OperationalError:
+                pass
+            w.close()
+            m = model.cmd("lock 1 1 L1:0 L2:0 L3:0 P:0 S1:0 S2:0 S3:0 R:0 Pe:0 X:0 W:0")
+            # SQLite may keep the dirty pages in memory when it cannot spill (it then holds PENDING); what must not happen is EXCLUSIVE
+            if "shared=W" in spilled_probe or "writes=0" not in (m[-1] if m else ""):
+                run.violation("a writer that spills its cache while a read is inside its callback got EXCLUSIVE (%s; a third process saw [%s]); the model says %s" % (res, spilled_probe, m[-1:] ),
+                              {"kind": "reader-vs-writer", "db": path, "scenario": "hold select; %s; writer BEGIN IMMEDIATE + UPDATE with cache_size=5" % (nested or "no nested call"), "writer": res, "probe": spilled_probe, "model": m})
     long_lived.close(); model.close()
     run.cov["traces_validated_against_impl"] = dist["reads"]
     run.cov["rule"] = ("a real SQLite connection (python sqlite3, another process than the reader) is parked in UNLOCKED, SHARED (open cursor), RESERVED (uncommitted changes in its cache), RESERVED "
